@@ -698,8 +698,9 @@ def _descent_cases(rng, tier, cs):
                      ls_alpha=C.q(alpha), ls_x=C.qs(x0), ls_d=C.qs(_flat(d)), ls_dd=C.q(dd), ls_res_=res)
         term = 'CLs ' + first
         if a is not None and rng.random() < 0.6:
-            # call the same object again from the point reached: exercises the stored alpha
-            x2 = x + a * d
+            # call the same object again: from the point reached (exercises the stored alpha) or from an UNRELATED
+            # point (the object must not carry anything about the previous point, e.g. a cached function value)
+            x2 = x + a * d if rng.random() < 0.5 else sp.element([float(rng.randint(-16, 16)) / 8 for _ in range(n)])
             g2 = f.gradient(x2)
             d2 = -g2 if rng.random() < 0.7 else g2.copy()
             dd2 = float(g2.inner(d2))
@@ -732,9 +733,25 @@ def _descent_cases(rng, tier, cs):
             err = '(Some RAssert)'
         except ValueError:
             err = '(Some RMaxIter)'
+        second = 'None'
+        if err == 'None' and rng.random() < 0.6:
+            # reuse the SAME line-search object for a second run from another start (typically with a lower objective
+            # than where the first run stopped): only self.alpha may carry over
+            cands = [[float(rng.randint(-16, 16)) / 8 for _ in range(n)] for _ in range(4)]
+            cands.sort(key=lambda c: float(f(sp.element(c))))
+            x0b = cands[0] if rng.random() < 0.7 else cands[-1]
+            xb = sp.element(x0b)
+            trb, errb = [], 'None'
+            try:
+                odl.solvers.steepest_descent(f, xb, line_search=ls, maxiter=maxiter, tol=tol, callback=_cb(trb))
+            except AssertionError:
+                errb = '(Some RAssert)'
+            except ValueError:
+                errb = '(Some RMaxIter)'
+            second = '(Some (%s, %s, %s))' % (C.qs(x0b), C.qss(trb), errb)
         term = 'CSd ' + _rec(sd_obj=ot, sd_tau=C.q(tau), sd_disc=C.q(disc), sd_mni=C.nat(mni), sd_est=C.b(est),
                              sd_alpha=C.q(alpha), sd_tol=C.q(tol), sd_maxiter=C.nat(maxiter), sd_x0=C.qs(x0),
-                             sd_trace=C.qss(tr), sd_err=err)
+                             sd_trace=C.qss(tr), sd_err=err, sd_second=second)
         cs.add(term, {'solver': 'steepest_descent+BacktrackingLineSearch', 'objective': od, 'tau': tau,
                       'discount': disc, 'max_num_iter': mni, 'estimate_step': est, 'alpha': alpha, 'tol': tol,
                       'maxiter': maxiter, 'x0': x0, 'err': err},
@@ -1114,6 +1131,79 @@ def _descent_probes(rng, tier, out):
            % (tau, disc, est, err or 'no error'), None, {'objective': od, 'x0': x0, 'vals': vals[:8]})
 
 
+def _linesearch_reuse_probes(rng, tier, out):
+    """one BacktrackingLineSearch(estimate_step=True) object reused (a) for two steepest_descent runs from different
+    starts, (b) with x changed between calls by a projection, (c) called directly at unrelated points: every accepted
+    step must not increase f, f evaluated independently at the ACTUAL current point"""
+    import odl
+    from odl.solvers.util.steplen import BacktrackingLineSearch
+    N = 10 if tier == 'quick' else 50
+    for _ in range(N):
+        n = rng.randint(1, 3)
+        f, _ot, od = _objective(rng, max(n, 2) if rng.random() < 0.3 else n)
+        sp = f.domain
+        m = _size(sp)
+        kind = 'rosenbrock' if 'rosenbrock' in od else 'quadratic-' + od['quadratic']
+        ls = BacktrackingLineSearch(f, tau=rng.choice([0.5, 0.25]), discount=rng.choice([0.01, 0.3]), estimate_step=True)
+        starts = [[float(rng.randint(-24, 24)) / 8 for _ in range(m)] for _ in range(4)]
+        starts.sort(key=lambda c: -float(f(sp.element(c))))         # later runs start LOWER than the earlier ones
+        ok, detail = True, []
+        for x0 in starts[:3]:
+            prev = [float(f(sp.element(x0)))]
+
+            def cb(z, prev=prev):
+                prev.append(float(f(z)))
+            x = sp.element(x0)
+            try:
+                odl.solvers.steepest_descent(f, x, line_search=ls, maxiter=rng.choice([1, 2, 4]), callback=cb)
+            except (ValueError, AssertionError):
+                pass
+            detail.append(prev[:5])
+            ok = ok and all(b <= a for a, b in zip(prev, prev[1:]))
+        _P(out, ok, 'linesearch-object-reused-across-runs-%s' % kind,
+           'one BacktrackingLineSearch(estimate_step=True) reused for three steepest_descent runs from different starts: '
+           'no accepted step increases the objective', None, {'objective': od, 'starts': starts[:3], 'values': detail})
+        # (b) projection moving x between the line-search calls, (c) direct calls at unrelated points
+        ls2 = BacktrackingLineSearch(f, tau=0.5, discount=0.01, estimate_step=True)
+        ok2 = True
+        for _k in range(4):
+            x = sp.element([float(rng.randint(-24, 24)) / 8 for _ in range(m)])
+            g = f.gradient(x)
+            dd = -float(g.inner(g))
+            if dd == 0:
+                continue
+            try:
+                a = ls2(x, -g, dd)
+            except (ValueError, AssertionError):
+                continue
+            ok2 = ok2 and float(f(x - a * g)) <= float(f(x))
+        _P(out, ok2, 'linesearch-object-reused-at-unrelated-points-%s' % kind,
+           'BacktrackingLineSearch(estimate_step=True) called at unrelated points: f(x + alpha d) <= f(x) with f(x) '
+           'evaluated independently at the point of the call', None, {'objective': od})
+        lo = -1.0
+        vals = []
+        x = sp.element(starts[0])
+        ls3 = BacktrackingLineSearch(f, tau=0.5, discount=0.01, estimate_step=True)
+        state = {'before': None, 'ok': True}
+
+        def proj(z):
+            z[:] = np.maximum(np.asarray(z), lo)      # changes x AFTER the accepted step
+        # steepest_descent applies projection after the update: monitor the line-search call itself
+        real = ls3.__call__
+
+        def watched(xx, dirn, ddv):
+            a = real(xx, dirn, ddv)
+            state['ok'] = state['ok'] and float(f(xx + a * dirn)) <= float(f(xx))
+            return a
+        try:
+            odl.solvers.steepest_descent(f, x, line_search=watched, maxiter=4, projection=proj)
+        except (ValueError, AssertionError):
+            pass
+        _P(out, state['ok'], 'linesearch-with-projection-between-calls-%s' % kind,
+           'steepest_descent with a projection that moves x between line-search calls (estimate_step=True): every step '
+           'the search returns satisfies f(x + alpha d) <= f(x) at the projected point', None, {'objective': od})
+
+
 def _kkt_pd(L, fT, gT, x, y):
     """primal-dual optimality residual of  min f(x) + g(Lx):  dist(-L^* y, df(x)) + dist(y, dg(Lx))"""
     return fT.sub_dist(L.domain, x, -L.adjoint(y)) + gT.sub_dist(L.range, L(x), y)
@@ -1363,6 +1453,7 @@ def probes(rng, tier):
     _linear_probes(rng, tier, out)
     _cgn_blowup_probe(out)
     _descent_probes(rng, tier, out)
+    _linesearch_reuse_probes(rng, tier, out)
     _nonsmooth_probes(rng, tier, out)
     return out
 
